@@ -183,10 +183,23 @@ func (l *Lexer) Next() (TokenType, []byte) {
 func (l *Lexer) shiftDOCTYPEText() []byte {
 	inString := false
 	inBrackets := false
+	var quote byte
 	for {
 		c := l.r.Peek(0)
-		if c == '"' {
+		if (c == '"' || c == '\'') && (!inString || c == quote) {
+			// literals are delimited by either quote character
 			inString = !inString
+			quote = c
+		} else if c == '<' && !inString && l.r.Peek(1) == '!' && l.r.Peek(2) == '-' && l.r.Peek(3) == '-' {
+			// comments in the internal subset may contain quotes and brackets
+			l.r.Move(4)
+			for l.r.Peek(0) != 0 && (l.r.Peek(0) != '-' || l.r.Peek(1) != '-' || l.r.Peek(2) != '>') {
+				l.r.Move(1)
+			}
+			if l.r.Peek(0) != 0 {
+				l.r.Move(3)
+			}
+			continue
 		} else if (c == '[' || c == ']') && !inString {
 			inBrackets = (c == '[')
 		} else if c == '>' && !inString && !inBrackets {
